@@ -31,3 +31,44 @@ def rule_stridx(crate, dirs=("numbat/src/ffi/",), min_bodies=40):
     out.analysed = {"bodies": bodies, "panicking_sites": sites, "fallible_get_sites": gets}
     out.floor("bodies", bodies, min_bodies)
     return out
+
+
+def rule_stridx_inclusive(crates, min_sites=10, skip_tests=True):
+    """Crate-wide: a `str` indexed with an INCLUSIVE range (`..=i`, `a..=i`) whose end is a run-time value.  Offsets
+    obtained from char_indices / find / rfind / spans are START offsets of characters; `..=i` then ends one byte into
+    the character, which panics as soon as that character is multi-byte.  (Exclusive ranges at such offsets are fine
+    and are only counted.)"""
+    from hirlib import peel_refs
+
+    out = RuleOut("STRIDX.inclusive", "no inclusive byte range with a run-time end on a string anywhere in the library or the CLI")
+    n_all = 0
+    n_incl = 0
+    for crate in crates:
+        for d, b in crate.hir.items():
+            if skip_tests and ("::tests::" in d or "::test::" in d):
+                continue
+            f = crate.file_of(b)
+            for n in walk(b["body"]):
+                if n.get("k") != "Index":
+                    continue
+                t = crate.ty(n["e"]).lstrip("&").replace("mut ", "").strip()
+                ti = crate.ty(n["idx"])
+                if t not in STR_TYPES or "std::ops::Range" not in ti:
+                    continue
+                n_all += 1
+                if "Inclusive" not in ti:
+                    continue
+                n_incl += 1
+                # end operand: a literal end is a fixed ASCII assumption of the author, not decided here
+                lits = [x for x in walk(n["idx"]) if x.get("k") == "Lit"]
+                paths = [x for x in walk(n["idx"]) if x.get("k") == "Path" and (x.get("res") or {}).get("r") == "local"]
+                key = "%s:str[..=]" % d.split("::")[-1]
+                if paths:
+                    out.violation(key, f, n["s"][0], "`&s[..=i]` on a string in `%s` with a run-time end offset: if `i` is the start offset of a multi-byte character (char_indices, find, span offsets) the slice ends inside that character and panics" % d.split("::")[-1])
+                else:
+                    out.advisory(key, f, n["s"][0], "inclusive string range with a constant end; not decided")
+    if n_incl == 0:
+        out.ok("no-inclusive-str-range", "numbat/src", 1, "%d string range-index sites in non-test code, none inclusive" % n_all)
+    out.analysed = {"str_range_index_sites": n_all, "inclusive": n_incl}
+    out.floor("str_range_index_sites", n_all, min_sites)
+    return out
